@@ -153,7 +153,9 @@ pub fn run(ctx: &mut Ctx) {
     }
     // alphabet of class representatives: caret, digits, every escape letter, every reserved char, codepage letters, others
     // … plus a non-ASCII *numeric* character (a digit to `char::is_numeric`, not a colour) and a wrong-case escape letter
-    let alpha: Vec<char> = "^18vacdsqtlrh|*:\\/?\"<>#LK x\u{b2}V".chars().collect();
+    // … plus characters outside Latin-1 whose code point ends in the byte of a significant ASCII character (U+015E ~ '^',
+    // U+0131 ~ '1', U+0176 ~ 'v'): a scanner that narrows `char` to `u8` confuses them
+    let alpha: Vec<char> = "^18vacdsqtlrh|*:\\/?\"<>#LK x\u{b2}V\u{15e}\u{131}\u{176}".chars().collect();
     let maxlen = if ctx.quick() { 4 } else { 5 };
     let mut total = 0u64;
     for len in 0..=maxlen {
@@ -193,7 +195,7 @@ pub fn run(ctx: &mut Ctx) {
         }
     }
     // random longer Unicode strings
-    let pool: Vec<char> = "^^^0189vacdsqtlrh|*:\\/?\"<>#LGCETBJHSK abcXYZ_-.,\u{b2}\u{bd}\u{ff15}\u{663}\u{ff}\u{fe}\u{ef}\u{bb}\u{bf}é€ěšЖяαβğşąłıİ日本語한국어中文ﾏ¥訖\u{1f600}\u{fffd}\u{0}".chars().collect();
+    let pool: Vec<char> = "^^^0189vacdsqtlrh|*:\\/?\"<>#LGCETBJHSK abcXYZ_-.,\u{b2}\u{bd}\u{ff15}\u{663}\u{ff}\u{fe}\u{ef}\u{bb}\u{bf}\u{15e}\u{45e}\u{305e}\u{4e5e}\u{131}\u{438}\u{176}é€ěšЖяαβğşąłıİ日本語한국어中文ﾏ¥訖\u{1f600}\u{fffd}\u{0}".chars().collect();
     let n = if ctx.quick() { 4000 } else { 400_000 };
     for _ in 0..n {
         let len = ctx.rng.below(40) as usize;
